@@ -20,7 +20,7 @@ PROPS = {
     ),
     "C02": dict(
         verus=[("emf_value", {}), ("emf_finish", {})],
-        kani=["emf_num"],
+        kani=["emf_num", "emf_json"],
         technique="Verus function contracts on the extracted real write_observation / write_metric_value / write_metric over a token view of the buffers",
         level_text="Deductive proof (Verus/z3), for all observation lists of any length with NaN/inf/zero-occurrence entries at any position and any multiplicity, that the metric-value fragment "
                    "appended to the EMF record is `,\"name\":` followed by one numeral or by aligned, non-empty, properly comma-separated Values/Counts arrays, that a skipped metric leaves no trace "
